@@ -348,6 +348,16 @@ class SyncInterpreter(BaseInterpreter[TContext, TEvent]):
         limit = getattr(self.machine, "max_iterations", 1000)
         try:
             while self._event_queue:
+                # 🏁 The machine completed, failed or was stopped while this
+                #    queue was being drained: events still queued behind that
+                #    point are ignored, exactly as `send()` ignores them from
+                #    then on (and as the async run loop, which exits, does).
+                #    Processing them ran user code for a finished machine and
+                #    could move it out of its final state while `status`
+                #    still read "done".
+                if self.status != "running":
+                    self._event_queue.clear()
+                    break
                 processed += 1
                 if processed > limit:
                     logger.error(
